@@ -121,9 +121,10 @@ type Frame struct {
 // guard: a package variable that may only be accessed while holding a mutex (reads: read or write lock; writes and
 // map updates: write lock).
 type guard struct {
-	g, mu *ssa.Global
-	alt   *ssa.Global // readers may hold this exclusive lock instead; writers must hold both
-	props []string
+	g, mu      *ssa.Global
+	alt        *ssa.Global // readers may hold this exclusive lock instead; writers must hold both
+	insertOnce bool
+	props      []string
 }
 
 type loopInfo struct {
